@@ -203,6 +203,7 @@ type IRVal struct {
 	Pred  string
 	Src   string // operand name (lhs/mid/rhs) for Op=operand; callee for call
 	Elem  *GenT  // for pointers to a known generator type (optional)
+	K     *int64 // value of an integer constant when known
 }
 
 func (v *IRVal) String() string {
@@ -1377,8 +1378,12 @@ func (in *Interp) pkgLevel(o types.Object) Val {
 			return &IRTy{"i1"}
 		case "compiler.i8ptr":
 			return &IRTy{"ptr"}
-		case "compiler.zero", "compiler.all_ones", "compiler.zero8", "compiler.all_ones8":
-			return &IRVal{Op: "const", Class: "int-const"}
+		case "compiler.zero", "compiler.zero8":
+			z := int64(0)
+			return &IRVal{Op: "const", Class: "int-const", K: &z}
+		case "compiler.all_ones", "compiler.all_ones8":
+			m := int64(-1)
+			return &IRVal{Op: "const", Class: "int-const", K: &m}
 		case "compiler.zerof":
 			return &IRVal{Op: "const", Class: "double"}
 		case "types.I1":
@@ -1758,7 +1763,18 @@ func (in *Interp) builderCall(fn *types.Func, call *ast.CallExpr, recv Val, args
 		cl := tyClass(args[0])
 		return &IRVal{Op: "load", Args: []*IRVal{asIR(args[1])}, Class: cl}
 	case "NewStore":
+		in.event("store", "", pos, args[0], args[1])
 		return &IRVal{Op: "store", Args: []*IRVal{asIR(args[0]), asIR(args[1])}, Class: "void"}
+	case "NewParam":
+		nm := "param"
+		if sv, ok := args[0].(StrV); ok {
+			nm = string(sv)
+		} else if cv, ok := args[0].(ConstV); ok && cv.V != nil && cv.V.Kind() == constant.String {
+			nm = constant.StringVal(cv.V)
+		}
+		return &IRVal{Op: "operand", Src: nm, Class: tyClass(args[1])}
+	case "NewFunc":
+		return &IRFuncV{Name: "new func"}
 	case "NewGetElementPtr", "NewAlloca":
 		var as []*IRVal
 		for _, a := range args {
@@ -1780,7 +1796,15 @@ func (in *Interp) builderCall(fn *types.Func, call *ast.CallExpr, recv Val, args
 		}
 		return o
 	case "NewInt":
-		return &IRVal{Op: "const", Class: "int-const"}
+		v := &IRVal{Op: "const", Class: "int-const"}
+		if len(args) == 2 {
+			if cv, ok := args[1].(ConstV); ok && cv.V != nil {
+				if k, ok := constant.Int64Val(cv.V); ok {
+					v.K = &k
+				}
+			}
+		}
+		return v
 	case "NewFloat":
 		return &IRVal{Op: "const", Class: "double"}
 	case "NewNull", "NewStruct", "NewZeroInitializer", "NewCharArrayFromString":
